@@ -29,6 +29,9 @@ pub fn sim_check(id: &str, tier: &str, _seed: i64) -> Option<SimCheck> {
 }
 
 /// Non-sim engine parts (enum, loom, spin) for a property.
-pub fn other_parts(_id: &str, _tier: &str, _seed: i64) -> Vec<crate::report::Part> {
-    vec![]
+pub fn other_parts(id: &str, tier: &str, _seed: i64) -> Vec<crate::report::Part> {
+    match id {
+        "C06" => vec![crate::enumc::c06::run(tier)],
+        _ => vec![],
+    }
 }
